@@ -161,7 +161,7 @@ func SameSet(a, b map[string]bool) bool {
 }
 
 // FilterNames is the sibling-confusable name universe of the filter checks.
-var FilterNames = []string{"a", "ab", "a-b", "a b", ".c", "b", "c", "abc", "a.b", "a[b]", "!a"}
+var FilterNames = []string{"a", "ab", "a-b", "a b", ".c", "b", "c", "abc", "a.b", "a[b]", "!a", "a\xff"}
 
 // escapeComp writes a path component as a pattern that matches it literally:
 // glob meta characters are escaped, and sometimes an ordinary one too.
@@ -346,7 +346,10 @@ func GenPatterns(r *core.Rand, max int, allowNeg bool, paths ...string) []string
 		if q := core.Pick(r, paths); strings.Contains(q, "/") {
 			dir := q[:strings.LastIndex(q, "/")]
 			var pat string
-			if r.P(1, 2) || strings.Contains(dir, "/") {
+			if strings.Contains(dir, "\xff") {
+				// U+FFFD in a compiled pattern matches every invalid byte
+				pat = strings.ReplaceAll(dir, "\xff", "\ufffd") + "/*"
+			} else if r.P(1, 2) || strings.Contains(dir, "/") {
 				pat = "zz|" + dir[strings.LastIndex(dir, "/")+1:] + "/*"
 			} else {
 				pat = dir + "{1}/*"
